@@ -31,7 +31,7 @@ def run(res, tier, rng):
     known = [k for k in common.load_known() if k.get("property") == "C12" and k.get("status") == "known"]
     urls = []
     # exhaustive over a reduced grammar, then random over the full one
-    for s, ui, h, p, pa, q, f in itertools.product(["http"], USERINFO, HOSTS, ["", ":8080"], ["", "/a/", "/a//b"], ["", "?q=1"], ["", "#f"]):
+    for s, ui, h, p, pa, q, f in itertools.product(["http"], USERINFO, HOSTS, ["", ":8080"], ["", "/a/", "/a//b", "/a%7Cb"], ["", "?q=1"], ["", "#f"]):
         urls.append(s + "://" + ui + h + p + pa + q + f)
     urls += grammar_urls(rng, 3000 if tier == "quick" else 60000)
     urls = ["http://u:@x.com/a", "http://a@b@x.com/", "http://[fe80::a]:80/a", "http://x.com./a", "http://x.com:80", "https://x.com/a//b/?#"] + urls
@@ -92,7 +92,7 @@ def run(res, tier, rng):
     res.evaluations += n1
     res.nontrivial = nontriv
     res.rule = ("URL grammar of the property: userinfo with / without / empty password and '@' inside, hosts (name, multi-label suffix, localhost, IPv4, bracketed IPv6 with and without "
-                "hex letters, upper case, trailing dot, IDN), ports, empty path segments, trailing slash, empty and non-empty query / fragment, ':' and '@' in path / query / fragment; "
+                "hex letters, upper case, trailing dot, IDN), ports, empty path segments, trailing slash, empty and non-empty query / fragment, ':' and '@' in path / query / fragment, percent-escapes (of '|', '/', '%', ':' ...) in userinfo / path / query / fragment; "
                 "reduced grammar exhaustively, full grammar by seeded sampling; x suffix_aware; round trip compared component-wise by re-parsing, LRU stability, serialization inverses; "
                 "model vs implementation. Non-trivial = every distinct (url, suffix_aware).")
     res.sample(dict(url=urls[10], stems=call(lru_stems, urls[10]), lru=call(url_to_lru, urls[10])))
